@@ -433,6 +433,25 @@ func (g *gen) genPkg(pkg *Pkg, earlier []*Pkg) {
 				}
 			}
 		}
+		// decoy: an unlisted function of the type's own package whose name differs from a
+		// listed constructor in letter case only (NEWT0 beside NewT0): no exemption
+		if name == fmt.Sprintf("F%d", i) && g.chance("ctorCaseDecoy", 12) {
+			for _, td := range types {
+				if td.HasCtor() && !strings.HasPrefix(td.Constructors[0], "Missing") {
+					name = strings.ToUpper(td.Constructors[0])
+				}
+			}
+			for _, d := range decls {
+				if fd, ok := d.(*FuncDecl); ok && fd.Name == name && fd.Recv == nil {
+					name = fmt.Sprintf("F%d", i)
+				}
+			}
+			for _, td := range types {
+				if td.IsCtor(name) {
+					name = fmt.Sprintf("F%d", i)
+				}
+			}
+		}
 		fd := g.genFunc(pkg, nil, name, types, earlier)
 		// generic declarations are outside the documented support of the annotations:
 		// only unannotated functions are made generic (calls of them must stay silent)
@@ -967,7 +986,7 @@ func (g *gen) immSite(sc *scope, td *TypeDecl, o *Var) *Site {
 		}
 	case k < 52 && f.Basic == "int":
 		s.Kind = "imm.compound"
-		s.Aux = []string{"+=", "-=", "*=", "|=", "<<="}[g.pick("op", 5)]
+		s.Aux = []string{"+=", "-=", "*=", "|=", "<<=", "/=", "%=", "&=", "^=", ">>=", "&^="}[g.pick("op", 11)]
 	case k < 66 && f.Basic == "int":
 		s.Kind = "imm.incdec"
 		s.Aux = []string{"++", "--"}[g.pick("incdec", 2)]
